@@ -116,6 +116,17 @@ Section History.
     | Some k => match pend k with [] => writes_ok (retW h) | _ => false end
     | None => false
     end.
+
+  (* An operation works on ONE tree (a read transaction performs ONE load, a write transaction stores ONE tree):
+     however many of its entry points reported the version of an object, they all reported the same one. *)
+  Fixpoint one_version (vs : list (obj * N)) : bool :=
+    match vs with
+    | [] => true
+    | p :: r => forallb (fun q => negb (Nat.eqb (fst q) (fst p)) || N.eqb (snd q) (snd p)) r && one_version r
+    end.
+
+  Definition single_load_ok (h : list hev) : bool :=
+    forallb (fun e => match e with HRet _ r => one_version (res_versions r) | HCall _ => true end) h.
 End History.
 
 Arguments ResW {wout rout} vs outs.
@@ -129,6 +140,7 @@ Arguments scan_step {wout rout} k e.
 Arguments retW {wout rout} h.
 Arguments res_ok {wout rout} fl r.
 Arguments res_versions {wout rout} r.
+Arguments single_load_ok {wout rout} h.
 
 (* ---------- the protocol ---------- *)
 
